@@ -49,6 +49,8 @@ type CompSpec struct {
 	ListTags bool   `json:"listtags"` // DisplayList()
 	ByWord   bool   `json:"byword"`   // only offer candidates that have the current word as prefix
 	Reuse    bool   `json:"reuse"`    // the application hands out the SAME prebuilt slice of candidates on every call
+	Usage    string   `json:"usage"`  // Completions.Usage
+	Msgs     []string `json:"msgs"`   // messages shown with the completions (CompleteMessage)
 }
 
 type BindSpec struct {
@@ -102,6 +104,8 @@ type Case struct {
 	Free      bool         `json:"free"`     // the key reader is never parked: schedules are driven by settle / type / rel (C20)
 	Sessions  [][]Action   `json:"sessions"`
 	HangMs    int          `json:"hangms"`
+	Tmods     []string     `json:"tmods"`   // per call: what the APPLICATION does to the terminal before it ("raw", "noecho", "" = nothing)
+	PreActs   [][]Action   `json:"preacts"` // per call: what the application does through the Shell's API before it (histdel, rebind)
 }
 
 var (
@@ -445,6 +449,12 @@ func runCase(cs *Case, ci int, pty *ptyPair, em *emu, home string) (alive bool) 
 			if cp.ListTags {
 				comps = comps.DisplayList()
 			}
+			for _, m := range cp.Msgs {
+				comps = comps.Merge(readline.CompleteMessage("%s", m))
+			}
+			if cp.Usage != "" {
+				comps = comps.Usage("%s", cp.Usage)
+			}
 			return comps
 		}
 	}
@@ -602,6 +612,38 @@ func runCase(cs *Case, ci int, pty *ptyPair, em *emu, home string) (alive bool) 
 
 	alive = true
 	for si, sess := range cs.Sessions {
+		// between two calls the application is free to use the terminal and the Shell's API
+		tS := t0
+		if si < len(cs.Tmods) && cs.Tmods[si] != "" {
+			t := t0
+			switch cs.Tmods[si] {
+			case "raw":
+				t.Iflag &^= syscall.IGNBRK | syscall.BRKINT | syscall.PARMRK | syscall.ISTRIP | syscall.INLCR | syscall.IGNCR | syscall.ICRNL | syscall.IXON
+				t.Oflag &^= syscall.OPOST
+				t.Lflag &^= syscall.ECHO | syscall.ECHONL | syscall.ICANON | syscall.ISIG | syscall.IEXTEN
+				t.Cflag &^= syscall.CSIZE | syscall.PARENB
+				t.Cflag |= syscall.CS8
+				t.Cc[syscall.VMIN], t.Cc[syscall.VTIME] = 1, 0
+			case "noecho":
+				t.Lflag &^= syscall.ECHO
+			}
+			ioctl(0, syscall.TCSETS, uintptr(unsafe.Pointer(&t)))
+			tS = pty.termios()
+		}
+		if si < len(cs.PreActs) {
+			for _, a := range cs.PreActs[si] {
+				switch a.K {
+				case "histdel":
+					rl.History.Delete(a.S)
+					logj(map[string]any{"ev": "api", "c": cs.ID, "s": si, "what": "History.Delete", "arg": a.S})
+				case "rebind":
+					if parts := strings.SplitN(a.S, "|", 2); len(parts) == 2 {
+						rl.Config.Bind(parts[0], string(unhex(a.H)), parts[1], a.N == 1)
+						logj(map[string]any{"ev": "api", "c": cs.ID, "s": si, "what": "Config.Bind", "arg": a.S})
+					}
+				}
+			}
+		}
 		done := make(chan struct{})
 		g = newGate()
 		g.free = cs.Free
@@ -974,7 +1016,7 @@ func runCase(cs *Case, ci int, pty *ptyPair, em *emu, home string) (alive bool) 
 		em.drain()
 		flushToks(si)
 		t1 := pty.termios()
-		m := map[string]any{"ev": "after", "c": cs.ID, "s": si, "termios_same": t0 == t1, "sources": dumpSources(),
+		m := map[string]any{"ev": "after", "c": cs.ID, "s": si, "termios_same": tS == t1, "sources": dumpSources(),
 			"returned": isDone(), "eofreads": g.eofReads()}
 		recw := map[string]any{}
 		for _, b := range srcs {
